@@ -1540,6 +1540,29 @@ pub fn c20_builtin_override() {
     let got = Program::compile(src).expect("compiles").execute(&ctx);
     check!(got == Ok(Value::Int(want)), "the function registered under a built-in's name is the one that runs, whatever the call style and receiver");
 }
+/// C10: the three-argument map evaluates the transform only for elements the filter accepts (after the filter), filter does
+/// not touch rejected elements: observed through a transform that fails / logs.
+pub fn c10_map_filter_order() {
+    let case: u8 = any();
+    crate::sym::assume(case <= 3);
+    let log: Arc<Mutex<Vec<i64>>> = Arc::new(Mutex::new(Vec::new()));
+    let l = log.clone();
+    let mut ctx = Context::default();
+    ctx.add_function("f", move |v: i64| -> i64 {
+        l.lock().unwrap().push(v);
+        v * 10
+    });
+    let ints = |v: Vec<i64>| Value::List(Arc::new(v.into_iter().map(Value::Int).collect()));
+    let (src, want, want_log): (&str, Value, Vec<i64>) = match case {
+        0 => ("[0, 1, 2, 0, 5].map(x, x != 0, 10 / x)", ints(vec![10, 5, 2]), vec![]),
+        1 => ("[1, 2, 3, 4].map(x, x % 2 == 0, f(x))", ints(vec![20, 40]), vec![2, 4]),
+        2 => ("[1, 2, 3].map(x, f(x) > 10, x)", ints(vec![2, 3]), vec![1, 2, 3]),
+        _ => ("[[0, 2], [1]].map(l, l.map(x, x != 0, 4 / x))", Value::List(Arc::new(vec![ints(vec![2]), ints(vec![4])])), vec![]),
+    };
+    let got = Program::compile(src).expect("compiles").execute(&ctx);
+    check!(got == Ok(want), "map(x, filter, transform) applies the transform to the accepted elements only");
+    check!(*log.lock().unwrap() == want_log, "the transform runs once per accepted element, after its filter");
+}
 /// C04 visitor half: a run of k prefix operators applies the operator k times (an even run cancels).
 pub fn c04_prefix() {
     let (op, k, operand): (u8, u8, u8) = (any(), any(), any());
@@ -2107,6 +2130,7 @@ crate::replay_only! {
     #[kani::unwind(2)] c07_method_too_few_arguments: "off", "receiver-style calls of positional host functions with too few arguments over logging operands, through Program::compile + execute", "three call shapes";
     #[kani::unwind(2)] c04_grouped_chain: "off", "parenthesised && / || groups inside a chain of the same operator through cel_parser::Parser::parse, the tree rendered back and compared", "2 operators x 6 groupings";
     #[kani::unwind(2)] c20_builtin_override: "off", "host functions registered as size / contains / max / string, called in both styles on receivers of several kinds, through Program::compile + execute", "ten calls";
+    #[kani::unwind(2)] c10_map_filter_order: "off", "three-argument map with failing / logging transforms and filters through Program::compile + execute", "four programs";
     #[kani::unwind(2)] c12_literal: "off", "a string / bytes literal token through Program::compile + execute against an independent decoder of the CEL literal syntax", "token text of up to 24 characters taken from the vector";
     #[kani::unwind(2)] c13_string_roundtrip: "off", "int(string(x)) / uint(string(x)) / double(string(x)) through Program::compile + execute", "payload bits from the vector";
     #[kani::unwind(2)] c13_literal: "off", "int / uint literals of every sign, radix and magnitude through Program::compile + execute", "text built from the vector";
